@@ -90,7 +90,8 @@ def write_evidence(pid, tier, seed, hs, results, violations, known_hits, wall):
                      'solver_s': r['solver_s'], 'wall_s': r['wall_s'], 'checks_switched_off': r['checks_off'],
                      'bounds': r['bounds'], 'canaries': r['canaries'],
                      'canaries_failed_as_required': r['canaries_failed_as_required'],
-                     'reason': r.get('reason', ''), 'failed': r.get('failed')})
+                     'reason': r.get('reason', ''), 'failed': r.get('failed'),
+                     'assumes_scan': r.get('assumes_scan', {})})
     cmd = next((r['cmd'] for r in results if r.get('cmd')), 'goto-cc && goto-instrument --dfcc && cbmc')
     cov = {
         'obligations': ob, 'discharged': di, 'checker_cmd': cmd, 'trusted_base': trusted,
